@@ -28,8 +28,11 @@ class PollFuture(_Future):
         super(PollFuture, self).__init__()
         self._delegate = delegate
         self._executor = executor
-        self._delegate.add_done_callback(self._delegate_resolved)
+        # Must be registered before we hook into the delegate: if the delegate
+        # has finished already, that publishes this future to the poll thread,
+        # which may resolve it at once - and only this callback deregisters it.
         self.add_done_callback(self._clear_executor)
+        self._delegate.add_done_callback(self._delegate_resolved)
 
     def _delegate_resolved(self, delegate):
         assert delegate is self._delegate, "BUG: called with %s, expected %s" % (
